@@ -144,6 +144,7 @@ fn stall_cause(sim: &Sim, final_chain: usize) -> String {
 
 /// The block a finding of the reference index is about (parsed from its text): the block that
 /// created the missing cell / holds the missing entry / spent the served cell.
+#[allow(dead_code)]
 fn subject_block(class: &str, detail: &str) -> Option<u64> {
     let after = |mark: &str| -> Option<u64> {
         let rest = &detail[detail.find(mark)? + mark.len()..];
@@ -283,21 +284,13 @@ pub(crate) fn run(opts: &Opts, report: &mut Report) {
             // up, and everything about blocks above the filtered height (not examined again after
             // the rollback) is a consequence of that wait, not another defect.
             if !cause.is_empty() && bad.iter().any(|(c, _)| c == "not-caught-up") {
-                // (blocks of a stored record are examined only when the record completes: they
-                // count as not examined yet, although they lie at or below the filtered height)
-                let filtered = sim
-                    .as_ref()
-                    .map(|s| {
-                        let f = s.c().storage.get_min_filtered_block_number();
-                        match s.c().storage.get_earliest_matched_blocks() {
-                            Some((start, _, _)) => f.min(start.saturating_sub(1)),
-                            None => f,
-                        }
-                    })
-                    .unwrap_or(u64::MAX);
-                for (class, detail) in bad.iter_mut() {
-                    let consequence = class == "not-caught-up" || subject_block(class, detail).map(|n| n > filtered).unwrap_or(false);
-                    if consequence {
+                // The sync waits for the stale record for good. What the index lacks (or still
+                // holds as live) then only says where the wait caught it - possibly in the middle
+                // of a record (a block indexed, the scripts' numbers not yet moved): completeness
+                // findings are consequences of the wait. Truthfulness findings (phantom cells,
+                // records the final chain does not contain, wrong fields) are not.
+                for (class, _detail) in bad.iter_mut() {
+                    if ["not-caught-up", "missing-live-cell", "missing-output-entry", "missing-input-entry", "spent-cell-served"].contains(&class.as_str()) {
                         *class = "stall".to_owned();
                     }
                 }
@@ -394,6 +387,7 @@ pub(crate) fn debug_case() {
                 println!("  {}: {}", c, d);
             }
             println!("stored tip #{} min filtered {}", sim.c().tip_number(), sim.c().storage.get_min_filtered_block_number());
+            println!("cause {:?} earliest record {:?} latest {:?}", stall_cause(sim, h.final_chain), sim.c().storage.get_earliest_matched_blocks().map(|(s, n, l)| (s, n, l.len())), sim.c().storage.get_latest_matched_blocks().map(|(s, n, l)| (s, n, l.len())));
         }
         break;
     }
